@@ -6,18 +6,21 @@ From MV Require Import Conc.Locks Conc.LocksProofs.
 From MV Require Import Gen.LockGraph.
 Import ListNotations.
 
-(* the proved checker, evaluated by the kernel on the table regenerated from the Go source *)
-Lemma lockgraph_ok : lock_discipline_ok table = true.
+(* the proved checker, evaluated by the kernel on the table regenerated from the Go source: every
+   function releases on every path what it acquired (no unbalanced function), the call closure is
+   closed, no lock class is re-acquired while held, the lock order has a topological numbering *)
+Lemma lockgraph_ok : lock_discipline_ok_full fn_names unbalanced table = true.
 Proof. vm_compute. reflexivity. Qed.
 
 (* hence: goroutines whose lock behaviour is described by the table never deadlock on the broker's
    locks and can always run to completion, whatever the schedule *)
 Theorem C32_holds_for_this_tree :
+  (forall g, existsb (N.eqb g) unbalanced = false) /\
   forall (cl : lock -> cls) (gs : list (fname * list ev)),
-    (forall f es, In (f, es) gs -> conforms cl table [(f, [])] es = true) ->
+    (forall f es, In (f, es) gs -> conforms cl table unbalanced [(f, [])] es = true) ->
     forall sched,
       ~ deadlocked (run sched (map (fun g => thread_of (snd g)) gs)) /\
       exists sched', all_done (run (sched ++ sched') (map (fun g => thread_of (snd g)) gs)).
-Proof. exact (checked_table_sound table lockgraph_ok). Qed.
+Proof. exact (checked_table_sound_full fn_names unbalanced table lockgraph_ok). Qed.
 
 Print Assumptions C32_holds_for_this_tree.
